@@ -12,7 +12,10 @@ from concurrent.futures import ThreadPoolExecutor
 V = os.path.dirname(os.path.abspath(__file__))
 # property -> files (substrings) whose change can alter what its changed rules read
 RELEVANT = {
-    "C02": ("BTreeItemsTemplate.c", "BTreeModuleTemplate.c"),
+    "C02": ("BTreeItemsTemplate.c", "BTreeModuleTemplate.c", "BTreeTemplate.c", "BucketTemplate.c"),
+    "C03": ("BTreeTemplate.c", "BucketTemplate.c"),
+    "C11": ("SetOpTemplate.c", "sorters.c"),
+    "C01": ("macros.h", "BTreeModuleTemplate.c"),
     "C15": ("BTreeItemsTemplate.c", "BTreeModuleTemplate.c"),
     "C06": ("_base.py", "BucketTemplate.c", "BTreeTemplate.c", "SetTemplate.c", "TreeSetTemplate.c", "macros.h",
             "BTreeModuleTemplate.c"),
